@@ -940,6 +940,20 @@ pub fn c09_single_aspect(cx: &mut Cx) {
             (bd, "InvalidFullmoveNumber")
         }
     };
+    // "otherwise valid": with the edited aspect neutralised the library itself must accept the
+    // state (the library has acceptance conditions beyond the C06 list, e.g. at most two checkers)
+    let mut neutral = bd.clone();
+    match want {
+        "InvalidCastlingRights" => neutral.castle_rights = [CastleRights::EMPTY; 2],
+        "InvalidEnPassant" => neutral.en_passant = None,
+        "InvalidHalfMoveClock" => neutral.halfmove_clock = 0,
+        "InvalidFullmoveNumber" => neutral.fullmove_number = 1,
+        _ => {}
+    }
+    if want != "InvalidBoard" && !matches!(guard(|| neutral.build()), Ok(Ok(_))) {
+        cx.count("single-aspect:not-otherwise-valid(skipped)");
+        return;
+    }
     cx.eval();
     let rec = builder_record(&bd);
     match guard(|| bd.build()) {
